@@ -562,3 +562,94 @@ theorem parseToks_sound (ts : List Tok) (c : Cst) (h : parseToks ts = some c) :
     exact ⟨by simp [e], by simp [hk]⟩
   · cases h
 end TraitsVerif.Model.Dsl
+
+namespace TraitsVerif.Model.Dsl
+
+/-! ### where `*` can be -/
+
+/-- no `*` anywhere in the tree -/
+def noAny : Cst → Bool
+  | .any => false
+  | .group p => noAny p
+  | .ser l _ r => noAny l && noAny r
+  | .par l r => noAny l && noAny r
+  | _ => true
+
+/-- `*` occurs only in a terminal position: never in the left operand of a
+connector (= followed, directly or indirectly, by `.` or `:`), and — the
+grammar file's `"[" parallel "]"` — never inside brackets. -/
+def starOk : Cst → Bool
+  | .group p => noAny p
+  | .ser l _ r => noAny l && starOk r
+  | .par l r => starOk l && starOk r
+  | _ => true
+
+theorem noAny_starOk (c : Cst) (h : noAny c = true) : starOk c = true := by
+  induction c with
+  | group p _ => simpa [starOk, noAny] using h
+  | ser l c r _ ihr =>
+    simp only [noAny, Bool.and_eq_true] at h
+    simp [starOk, h.1, ihr h.2]
+  | par l r ihl ihr =>
+    simp only [noAny, Bool.and_eq_true] at h
+    simp [starOk, ihl h.1, ihr h.2]
+  | _ => rfl
+
+theorem shape_star (c : Cst) : ∀ k, shape c = some k →
+    (k.lePar = true → noAny c = true) ∧ starOk c = true := by
+  induction c with
+  | trait n => intro k _; exact ⟨fun _ => rfl, rfl⟩
+  | items => intro k _; exact ⟨fun _ => rfl, rfl⟩
+  | metadata n => intro k _; exact ⟨fun _ => rfl, rfl⟩
+  | any => intro k hk; cases hk; exact ⟨fun h => by simp [Kind.lePar] at h, rfl⟩
+  | group p ih =>
+    intro k hk
+    simp only [shape] at hk
+    split at hk
+    · rename_i kp hkp
+      split at hk
+      · rename_i hle
+        have := (ih kp hkp).1 hle
+        exact ⟨fun _ => by simpa [noAny] using this, by simpa [starOk] using this⟩
+      · cases hk
+    · cases hk
+  | ser l cn r ihl ihr =>
+    intro k hk
+    simp only [shape] at hk
+    split at hk
+    · rename_i kl kr hkl hkr
+      split at hk
+      · rename_i hle
+        have hl : noAny l = true := (ihl kl hkl).1 (by cases kl <;> simp_all [Kind.leSer, Kind.lePar])
+        split at hk
+        · rename_i hre
+          have hre : kr = .elem := by simpa using hre
+          subst hre
+          cases hk
+          have hr := (ihr .elem hkr).1 rfl
+          exact ⟨fun _ => by simp [noAny, hl, hr], by simp [starOk, hl, noAny_starOk r hr]⟩
+        · split at hk
+          · cases hk
+            exact ⟨fun h => by simp [Kind.lePar] at h, by simp [starOk, hl, (ihr kr hkr).2]⟩
+          · cases hk
+      · cases hk
+    · cases hk
+  | par l r ihl ihr =>
+    intro k hk
+    simp only [shape] at hk
+    split at hk
+    · rename_i kl kr hkl hkr
+      split at hk
+      · rename_i hpp
+        cases hk
+        simp only [Bool.and_eq_true] at hpp
+        have hl := (ihl kl hkl).1 hpp.1
+        have hr := (ihr kr hkr).1 (by cases kr <;> simp_all [Kind.leSer, Kind.lePar])
+        exact ⟨fun _ => by simp [noAny, hl, hr], by simp [starOk, noAny_starOk l hl, noAny_starOk r hr]⟩
+      · split at hk
+        · cases hk
+          exact ⟨fun h => by simp [Kind.lePar] at h, by simp [starOk, (ihl kl hkl).2, (ihr kr hkr).2]⟩
+        · cases hk
+    · cases hk
+
+end TraitsVerif.Model.Dsl
